@@ -197,7 +197,7 @@ def install_main_hooks(I, w, cfg, sk, st):
         content = fr.mem[cellv.cell].content
         bad = False
         if isinstance(content, TableV):
-            pass
+            bad = gnot(gand(content.leaves[0], content.leaves[1]))
         elif isinstance(content, MapV):
             has = {0: False, 1: False}
             for g, kx, vx in content.items:
